@@ -364,6 +364,27 @@ def run(ctx):
                 ctx.count("mixed-edge", "inside" if I128_MIN <= target <= I128_MAX else "outside")
                 if got:
                     reqs.append(got)
+    # the same for differences of instants (bintime DateTime against datetime / hightime datetimes, both operand orders): exact results at
+    # the ends of the TimeDelta range
+    EPOCH_US = 695055 * 86400 * 10**6                         # 1904-01-01 in microseconds since 0001-01-01
+    for (op, lk, rk), want_kind in sorted(RESULT_KIND.items()):
+        if not (op == "sub" and want_kind == "btTd" and lk.endswith("Dt") and rk.endswith("Dt")):
+            continue
+        other_kind, bt_left = (rk, True) if lk == "btDt" else (lk, False)
+        for _ in range(4 if ctx.quick else 100):
+            k = rng.choice([-1, 1, -86400, 86400 * 365, -3600, 17])           # the datetime operand: 1904-01-01 plus k seconds
+            scale = 10**6 if other_kind == "dtDt" else 10**24
+            other = (other_kind, (EPOCH_US // 10**6 + k) * scale)
+            for target in (I128_MIN, I128_MIN + 1, I128_MAX, I128_MAX - 1, I128_MIN - 1, I128_MAX + 1):
+                # bt - other = target  or  other - bt = target, in ticks relative to 1904
+                b = target + k * T64 if bt_left else k * T64 - target
+                if not (I128_MIN <= b <= I128_MAX):
+                    continue
+                pair = (("btDt", b), other) if bt_left else (other, ("btDt", b))
+                got = check_mixed(ctx, op, pair[0], pair[1], tv)
+                ctx.case(("mixed-edge-dt", op, pair))
+                if got:
+                    reqs.append(got)
     res = ctx.model([q for q, _ in reqs])
     if res is not None:
         for (q, want), got in zip(reqs, res):
